@@ -18,9 +18,14 @@ class Renamer(ast.NodeTransformer):
         return node
 
 
-def rename_module(src: str) -> str:
+def rename_module(src: str, parity=None) -> str:
+    """parity None: every function; 0 / 1: only every other function (in source order) - a one-sided rename that
+    separates the names used by sibling implementations."""
     tree = ast.parse(src)
-    for fn in [n for n in ast.walk(tree) if isinstance(n, (ast.FunctionDef, ast.AsyncFunctionDef))]:
+    fns = sorted([n for n in ast.walk(tree) if isinstance(n, (ast.FunctionDef, ast.AsyncFunctionDef))], key=lambda n: n.lineno)
+    for k, fn in enumerate(fns):
+        if parity is not None and k % 2 != parity:
+            continue
         nested = [n for n in ast.walk(fn) if n is not fn and isinstance(n, (ast.FunctionDef, ast.Lambda, ast.ClassDef))]
         if nested:
             continue
